@@ -69,6 +69,8 @@ func TestEngine(t *testing.T) {
 		engineLister(t, tr)
 	case "join":
 		engineJoin(t, tr)
+	case "typed":
+		engineTyped(t, tr)
 	default:
 		t.Fatalf("unknown engine %q", *flagEngine)
 	}
